@@ -3,6 +3,8 @@ import numpy as np
 
 from vmon import gen, instr, models, oracles, scen
 
+from vmon.scale import S
+
 ID = 'C03'
 RULE = ('cases = planted scenes: K prototypes with pairwise |cos| <= 0.3 (rejection sampled), class sizes >= D+2, additive '
         'perturbation <= 1e-2, arbitrary per-frame complex gains, start = truth blurred with Dirichlet noise (true class stays '
@@ -34,7 +36,7 @@ def labels(rng, K, N, D):
 
 def plan(tier, seed):
     rng = np.random.default_rng([seed, 103])
-    n = 24 if tier == 'quick' else 280
+    n = S(tier, 24, 280)
     cases = []
     i = 0
     pick = lambda xs: xs[int(rng.integers(len(xs)))]
@@ -70,6 +72,11 @@ def plan(tier, seed):
             # class, cACGMM / vMF-cACGMM with frame-wise priors and 16..36 observations), so the heaviest blur
             # sampled is 0.3 (true class >= 0.7). See DESIGN.md section 7, C03.
             blur = float(pick([0.0, 0.1, 0.2, 0.3]))
+            if o.get('covariance_type') == 'full':
+                # full covariances fitted to dim+2 points per class are nearly singular (likelihood unbounded in the
+                # degenerate directions): EM itself was seen to flip single observations there; sample larger classes
+                blur = min(blur, 0.2)
+                N = max(N, 2 * K * ((max(D, E) if kind in models.INTEGRATION else D) + 2))
             iters = 20 if (tier == 'thorough' or r % 3 == 0) else int(pick([3, 5, 10]))
             if kind == 'cbmm':
                 iters = int(pick([2, 3, 5]))
